@@ -164,6 +164,24 @@ type run struct {
 
 var runCounter uint64
 
+// panicClass normalises a panic message into a signature: first line, no
+// digits (client identifiers, addresses), words joined by '-'.
+func panicClass(msg string) string {
+	msg = strings.Split(msg, "\n")[0]
+	var b strings.Builder
+	for _, ch := range msg {
+		if ch >= '0' && ch <= '9' {
+			continue
+		}
+		b.WriteRune(ch)
+	}
+	out := strings.Join(strings.Fields(b.String()), "-")
+	if len(out) > 70 {
+		out = out[:70]
+	}
+	return out
+}
+
 func payload(src, seq, size int) []byte {
 	if size < 8 {
 		size = 8
@@ -561,7 +579,7 @@ func Run(script interface{}, cfg simrt.Config) *world.Outcome {
 	out.Res = res
 	switch res.Status {
 	case simrt.StatusCrash:
-		out.Add("C20", "no-panic", "C20/panic/"+strings.Split(res.CrashMsg, "\n")[0], "a panic reached the top of a goroutine in the client: "+res.CrashMsg+"\n"+res.CrashStack)
+		out.Add("C20", "no-panic", "C20/panic/"+panicClass(res.CrashMsg), "a panic reached the top of a goroutine in the client: "+res.CrashMsg+"\n"+res.CrashStack)
 		return out
 	case simrt.StatusBudget:
 		out.Aborted = "step budget"
